@@ -293,6 +293,7 @@ static std::string oracle_c05(const Bytes &M, const Bytes &F, const Bytes &P, co
   fo::OpResult v, d;
   if ((p + inner) % 4 == 1) { // history: the genuine file has just been accepted, then the altered copy is decrypted straight away
     if ((p + inner) % 8 == 1) (void)fo::wc_verify(F, key_of(b.kk), b.T); else (void)fo::wc_decrypt(F, key_of(b.kk), b.T);
+    if ((p + inner) % 16 >= 9) (void)fo::alter_in_place(F, M); // ... and it is the very same file (inode, size, times), altered in place
     d = fo::wc_decrypt(M, KEY, b.T);
     v = fo::wc_verify(M, KEY, b.T);
   } else { v = fo::wc_verify(M, KEY, b.T); d = fo::wc_decrypt(M, KEY, b.T); }
